@@ -387,7 +387,7 @@ def r10(ctx, prog):
 
 def r11(ctx, prog):
     ctx.rule('C15.R11', 'A9d error discipline: no status of the deserializer is dropped on the datagram path — every bool-returning Deserializer call (fetch*, skip, set_pos, '
-             'checkSize) has its result used (condition, return value, assignment, operand), never discarded', floor=10)
+             'checkSize) has its result used (condition, return value, assignment, operand), never discarded', floor=6)
     f, fs = parse_funcs(prog)
     n = 0
     for g in fs:
@@ -407,8 +407,8 @@ def r11(ctx, prog):
             ctx.ob('C15.R11', '%s|%s@%s' % (g.name, st['fn'], g.loc(st['i']).split(':')[-1]), not discarded, 'result of %s() is used' % st['fn'] if not discarded else
                    'the result of Deserializer::%s() is discarded: when it fails (position/size out of range) parsing goes on from wherever the cursor is, and bytes that are not '
                    'records are reported as answers' % st['fn'], where=g.loc(st['i']))
-    if n < 10:
-        raise AnalysisBroken('expected >= 10 status-returning Deserializer calls on the datagram path, saw %d' % n)
+    if n < 6:
+        raise AnalysisBroken('expected >= 6 status-returning Deserializer calls on the datagram path, saw %d' % n)
 
 
 def run(ctx):
